@@ -308,6 +308,44 @@ def any_activation(draw, rg="half"):
     return {"cls": cls}
 
 
+UNICODE_TERMS = ["élevée", "niño", "größe", "Δt", "температура", "basse_é"]
+UNICODE_VARS = ["température", "Größe", "скорость"]
+
+
+def _walk_props(a):
+    if "op" in a:
+        yield from _walk_props(a["l"])
+        yield from _walk_props(a["r"])
+    else:
+        yield a
+
+
+def rename(spec, draw):
+    """Rename one term (and possibly one variable) to a name with non-ASCII letters, consistently in the rules."""
+    variables = spec["inputs"] + spec["outputs"]
+    v = draw(st.sampled_from(variables))
+    t = draw(st.sampled_from(v["terms"]))
+    old, new = t["name"], draw(st.sampled_from(UNICODE_TERMS))
+    if all(x["name"] != new for x in v["terms"]):
+        t["name"] = new
+        for b in spec["blocks"]:
+            for r in b["rules"]:
+                for p_ in list(_walk_props(r["ante"])) + r["cons"]:
+                    if p_["var"] == v["name"] and p_.get("term") == old:
+                        p_["term"] = new
+    formulas = " ".join(x.get("formula", "") for y in variables for x in y["terms"])
+    w = draw(st.sampled_from(variables))
+    if draw(st.booleans()) and w["name"] not in formulas.replace("(", " ").replace(")", " ").replace(",", " ").split():
+        oldv, newv = w["name"], draw(st.sampled_from(UNICODE_VARS))
+        if all(y["name"] != newv for y in variables):
+            w["name"] = newv
+            for b in spec["blocks"]:
+                for r in b["rules"]:
+                    for p_ in list(_walk_props(r["ante"])) + r["cons"]:
+                        if p_["var"] == oldv:
+                            p_["var"] = newv
+
+
 def fll_spec(draw, rg):
     spec = draw(gen.engine(rg=rg, activation=any_activation(rg), functions=True, n_rules=(0, 5)))
     atol2 = 2e-3
@@ -348,6 +386,20 @@ def fll_spec(draw, rg):
             draw(st.sampled_from(ts))["h"] = draw(near)
         elif rs:
             draw(st.sampled_from(rs))["weight"] = draw(near)
+    # an engine-dependent term (Function naming an engine variable) in an INPUT variable, used by a rule
+    if spec["blocks"] and draw(st.integers(0, 3)) == 0:
+        iv = draw(st.sampled_from(spec["inputs"]))
+        other = draw(st.sampled_from(spec["inputs"]))["name"]
+        c1, c2 = draw(st.sampled_from([0.0, 0.5, 0.25])), draw(st.sampled_from([0.0, 0.5, 1.0]))
+        iv["terms"].append({"cls": "Function", "formula": f"0.5 * gt(x, {c1:.3f}) + 0.25 * ge({other}, {c2:.3f})", "p": [],
+                            "h": 1.0, "name": "fdep"})
+        ov = spec["outputs"][0]
+        spec["blocks"][0]["rules"].append({"ante": {"var": iv["name"], "hedges": [], "term": "fdep", "rp": False},
+                                           "cons": [{"var": ov["name"], "hedges": [], "term": ov["terms"][0]["name"]}],
+                                           "weight": None, "enabled": True, "tight": False})
+    # names with non-ASCII letters (valid identifiers) for one term and, when no formula mentions it, one variable
+    if draw(st.integers(0, 3)) == 0:
+        rename(spec, draw)
     spec["name"] = draw(st.sampled_from(["E", "engine_1", "ObstacleAvoidance", "x2"]))
     spec["description"] = draw(DESCRIPTION)
     return spec
